@@ -430,7 +430,8 @@ def _directed():
     # constant / readonly
     case(lambda i: [C(0, [], D(i, 0, N, default=1, constant=True, readonly=False)), C(1, [0], D(i, 0, N, default=2)),
                     C(2, [], D(i, 0, N, readonly=True)), C(3, [2], D(i, 0, N, constant=False)), C(4, [3], D(i, 0, N))])
-    # add_parameter: new name, override on subclass (ok / conflicting), on an ancestor afterwards
+    # add_parameter: new name, override on subclass (ok / conflicting: must leave the class unchanged, fixed in 9350ff5),
+    # on an ancestor afterwards
     case(lambda i: [C(0, [], D(i, 0, N, default=5, bounds=(0, 10))), C(1, [0]), A(1, D(i, 0, N, default=50)),
                     A(0, D(i, 1, N, default=5, bounds=(0, 1))), A(0, D(i, 1, N, default=1, bounds=(0, 1))),
                     C(2, [0], D(i, 1, N, default=2)), A(1, D(i, 0, N, default=6)), A(0, D(i, 0, N, default=8, bounds=(0, 8))),
@@ -788,6 +789,4 @@ def classify(case, impl, fail):
         if any(d['ptype'] == 'Selector' and 'objects' not in d['args'] for d in decls) and any(
                 isinstance(j.get('v'), dict) and 'd' in j['v'] for _, d in _decl_map(case) for k, j in d['args'].items() if k == 'objects'):
             return 'selector-names-not-inherited'
-    if re.match(r'op \d+: after add_parameter class \d+ holds a non-None default .*\(failed=true\)', why):
-        return 'failed-add-parameter-leaves-invalid-parameter'
     return None
